@@ -290,7 +290,7 @@ func (tree *Tree[T]) Handler(ctx *types.Context, method string) (types.Node, T, 
 	if node == nil || node.size() == 0 {
 		return nil, tree.notFound, false
 	}
-	if h, exists := node.handlers[method]; exists {
+	if h, exists := node.handlers[method]; exists && method != methodNotAllowed { // 空的请求方法不是一个已注册的方法
 		return node, h, true
 	}
 	if h, exists := node.handlers[methodNotAllowed]; exists {
